@@ -634,10 +634,12 @@ def run_e2e(case, tmpdir):
             kwargs["coordpath_meta" if meta else "coordpath"] = in_path
         else:
             kwargs["box"] = np.array([8.0, 8.0, 8.0])
-        with np.errstate(all="ignore"):
+        with np.errstate(all="ignore"), common.time_limit(120):
             gen_coords(**kwargs)
         mol = read_gro(out_path, exclude=())
         result["out"] = [[float(x) for x in mol.nodes[n]["position"]] for n in sorted(mol.nodes)]
+    except common.CaseTimeout:
+        result["timeout"] = True          # counted, not judged (a verdict needs a finished run)
     except Exception as err:  # pylint: disable=broad-except
         result["error"] = "%s: %s" % (type(err).__name__, str(err)[:160])
     finally:
@@ -685,6 +687,9 @@ def judge_e2e(ctx, case, result, ans, residues):
 
     if result.get("unobservable"):
         ctx.tally(internal_state_not_observable=True)
+    if result.get("timeout"):
+        ctx.tally(e2e_timeout=True)
+        return
     if result.get("wrong_types"):
         fail("residue-type-of-another-residue", "the engine builds residue (molecule %d, node %d) with the size of %s, "
              "it is a %s (%d residues affected): %s" % (*result["wrong_types"][0], len(result["wrong_types"]), what))
